@@ -728,7 +728,9 @@ func randomScript(r *rand.Rand, n int, nLines, nExec int) *script {
 // oracleScript: controlled lines whose outcome is known to the harness without any model.
 func oracleScript(r *rand.Rand, n int, nLines, nExec int) *script {
 	g := &rgen{r: r, allowN: false}
-	names := []string{"K", "A", "B", "X", "Y_1", "PWD", "HOME", "unset_name"}
+	// KR / AR / R: names that end in the letters of the "@R" operator, next to the shorter names K / A they would
+	// collapse to if the operator were cut off as a character set instead of as a suffix (seeded C02-m8)
+	names := []string{"K", "A", "B", "X", "Y_1", "PWD", "HOME", "unset_name", "KR", "AR", "R"}
 	s := &script{name: fmt.Sprintf("orc%05d", n), names: names, class: "oracle"}
 	cur := map[string]string{}
 	initial := g.wild(5)
@@ -753,7 +755,7 @@ func oracleScript(r *rand.Rand, n int, nLines, nExec int) *script {
 	for k := 0; k < nExec; k++ {
 		execAt[r.Intn(nLines)] = true
 	}
-	assignable := []string{"K", "A", "B", "X", "Y_1", "PWD"}
+	assignable := []string{"K", "A", "B", "X", "Y_1", "PWD", "KR", "AR", "R"}
 	for i := 0; i < nLines; i++ {
 		if execAt[i] {
 			id := s.nextID()
@@ -808,7 +810,7 @@ func oracleScript(r *rand.Rand, n int, nLines, nExec int) *script {
 			id := s.nextID()
 			s.add("probe "+id+" $"+name+" ${"+name+"} x$"+name+"'y z'${"+name+"}w", lineMeta{kind: "probe", id: id, oracle: "noresplit", wantArgs: []string{v, v, "x" + v + "y z" + v + "w"}})
 		default: // ${NAME@R}
-			name := []string{"K", "A", "X", "B"}[r.Intn(4)]
+			name := []string{"K", "A", "X", "B", "KR", "AR", "R"}[r.Intn(7)]
 			id := s.nextID()
 			s.add("probe "+id+" ${"+name+"@R}", lineMeta{kind: "probe", id: id, oracle: "atR", atRVal: cur[name]})
 		}
